@@ -61,6 +61,93 @@ def make_case(r):
                                'kind': kind}
 
 
+FRESH_PROCESS = r'''
+import json, sys
+sys.argv = ['ddsmt', 'in.smt2', 'out.smt2', 'cmd']
+sys.path.insert(0, sys.argv and %r)
+from ddsmt import nodeio, nodes, smtlib
+try:
+    from ddsmt import cli
+    cli.setup_logging()
+except Exception:
+    pass
+out = []
+for snap in json.load(open(%r)):
+    exprs = list(nodeio.parse_smtlib(snap['text']))
+    try:
+        smtlib.reset_information()
+    except Exception:
+        pass
+    smtlib.collect_information(exprs)
+    sorts = []
+    for n in nodes.dfs(exprs):
+        try:
+            so = smtlib.get_sort(n)
+            sorts.append(None if so is None else str(so))
+        except Exception as e:
+            sorts.append('!' + type(e).__name__)
+    out.append({'sorts': sorts, 'terms': [str(n)[:80] for n in nodes.dfs(exprs)]})
+json.dump(out, open(%r, 'w'))
+'''
+
+
+def fresh_answers(wd, snaps):
+    """The sorts of all subterms of each snapshot text, computed by a fresh
+    process that has seen nothing else (one process per snapshot list, but
+    the tables are reset before each text)."""
+    import json
+    import subprocess
+    os.makedirs(wd, exist_ok=True)
+    fin = os.path.join(wd, 'snaps.json')
+    fout = os.path.join(wd, 'fresh.json')
+    with open(fin, 'w') as f:
+        json.dump([{'text': s['text']} for s in snaps], f)
+    prog = FRESH_PROCESS % (common.REPO, fin, fout)
+    try:
+        subprocess.run([common.PY, '-c', prog], timeout=300, check=True,
+                       env=common.child_env(), capture_output=True)
+        with open(fout) as f:
+            return json.load(f)
+    except Exception:  # noqa
+        return None
+
+
+def judge_snapshots(res, wd, run, desc, want):
+    snaps = [e for e in run.events if e['ev'] == 'tables_snapshot']
+    if not snaps:
+        return
+    # a fresh interpreter for every snapshot: nothing may be inherited
+    for snap in snaps[-4:]:
+        fresh = fresh_answers(wd, [snap])
+        if not fresh:
+            res.count('fresh_process_failures')
+            continue
+        f = fresh[0]
+        res.count('fresh_process_snapshots')
+        if len(f['sorts']) != len(snap['sorts']):
+            res.count('fresh_process_shape_mismatch')
+            continue
+        for i, (old, new) in enumerate(zip(snap['sorts'], f['sorts'])):
+            if old == new:
+                continue
+            res.count('fresh_process_answers_differing')
+            if old is None or new is None or str(old).startswith('!') or \
+                    str(new).startswith('!'):
+                # 'unknown' on one side is allowed by C16 (history
+                # dependence of that kind is C02's: second run)
+                res.count('fresh_process_unknown_vs_known')
+                continue
+            if want == 'sorts':
+                w = dict(desc)
+                w['snapshot'] = snap['text'][:3000]
+                res.violation(
+                    'real-run:sort-depends-on-history',
+                    f'at {snap["where"]} get_sort({f["terms"][i]}) answers '
+                    f'{old!r} in the running process; a fresh process '
+                    f'given the same input answers {new!r}', w)
+                return
+
+
 def shard(args):
     res = common.ShardResult()
     r = common.rng('c17real', args['shard'])
@@ -78,6 +165,9 @@ def shard(args):
             if run.timed_out or run.rc != 0:
                 res.count('real_runs_failed')
                 continue
+            if want == 'sorts':
+                judge_snapshots(res, wd + '_fresh', run, desc, want)
+                shutil.rmtree(wd + '_fresh', ignore_errors=True)
             for e in run.events:
                 if e['ev'] == 'monitor_error':
                     res.add_set('monitor_errors', e['error'][:100])
